@@ -497,9 +497,14 @@ func scenarios(thorough, race bool) []scenario {
 			add(4, 1, 2, 2, 0, 1, nil)
 		}
 		add(3, 3, 1, 2, 0, 2, nil) // two back-offs: the 1 s progress ticker fires
-		add(4, 2, 2, 2, 0, 2, nil)
-		add(4, 2, 1, 2, 1, 0, nil)
-		add(3, 1, 2, 2, 1, 0, nil)
+		add(3, 2, 2, 2, 0, 2, nil)
+		add(3, 3, 1, 2, 1, 0, nil)
+		add(3, 3, 2, 1, 1, 0, nil)
+		if thorough {
+			add(4, 2, 2, 2, 0, 2, nil)
+			add(4, 2, 1, 2, 1, 0, nil)
+			add(3, 1, 2, 2, 1, 0, nil)
+		}
 		add(4, 3, 2, 2, 0, 1, func(s *scenario) { s.PreOnly = true })
 		add(3, 2, 2, 2, 0, 1, func(s *scenario) { s.Updater = 0 })
 		if thorough {
@@ -519,7 +524,9 @@ func scenarios(thorough, race bool) []scenario {
 	add(4, 2, 1, 2, 1, 0, nil)
 	add(4, 2, 1, 2, 0, 1, nil)
 	for _, nb := range [][2]int64{{3, 2}, {4, 2}, {4, 5}, {3, 1}} {
-		add(int(nb[0]), nb[1], 2, 2, 1, 0, nil)
+		if thorough || nb[0] == 3 && nb[1] == 2 {
+			add(int(nb[0]), nb[1], 2, 2, 1, 0, nil)
+		}
 		add(int(nb[0]), nb[1], 2, 2, 0, 1, nil)
 	}
 	// option axes
@@ -527,9 +534,10 @@ func scenarios(thorough, race bool) []scenario {
 	add(4, 2, 2, 1, 0, 1, func(s *scenario) { s.Start = 1 })
 	add(4, 2, 1, 2, 1, 0, func(s *scenario) { s.Max = 3 })
 	add(4, 2, 1, 2, 0, 1, func(s *scenario) { s.Max = 3 })
-	add(4, 3, 2, 2, 1, 0, func(s *scenario) { s.PreOnly = true })
+	add(4, 3, 2, 1, 1, 0, func(s *scenario) { s.PreOnly = true })
 	add(4, 3, 2, 2, 0, 1, func(s *scenario) { s.PreOnly = true })
-	add(3, 2, 2, 2, 1, 0, func(s *scenario) { s.Updater = 0 })
+	add(3, 2, 1, 2, 1, 0, func(s *scenario) { s.Updater = 0 })
+	add(3, 2, 2, 2, 0, 1, func(s *scenario) { s.Updater = 0 })
 	add(4, 2, 1, 1, 1, 1, func(s *scenario) { s.Start, s.Max = 1, 3 })
 	// two faults, no preemption: the 1 s progress ticker fires during the second 500 ms back-off
 	add(3, 3, 1, 2, 0, 2, nil)
@@ -600,6 +608,8 @@ func main() {
 			perJob = 24 * time.Minute
 		}
 		outs := vx.RunWorkers(self, []string{"VERIF_TIER=" + c.Tier}, jobs, c.Workers(), perJob)
+		perScenario := map[string]any{}
+		defer func() { c.Set("per_scenario", perScenario) }()
 		merge := func(outs []vx.WorkerOut, tag string) {
 			for _, o := range outs {
 				if o.Broken != "" {
@@ -612,6 +622,7 @@ func main() {
 				c.Transitions.Add(o.Stats.Steps)
 				c.Evaluations.Add(int64(o.Stats.Execs))
 				c.Add(tag+"_choice_points", o.Stats.Points)
+				perScenario[tag+" "+o.Job] = map[string]any{"executions": o.Stats.Execs, "max_choice_points": o.Stats.MaxPoints, "bound_completed": o.Bound, "complete": o.Stats.Complete}
 				for k, n := range o.Outcomes {
 					c.Outcome(tag+" "+k, n)
 				}
